@@ -9,10 +9,13 @@ K1 == Key(1, "A", 11)
 K2 == Key(2, "B", 22)
 K3 == Key(3, "A", 33)
 K4 == Key(4, "A", 11)          \* another key with K1's name and key hash: makes lookups ambiguous
+K5 == Key(5, "A", 11)          \* and a third and fourth one (ambiguity is not a matter of parity)
+K6 == Key(6, "A", 11)
 SigLike == SigLine("A", 11, 0, <<>>, <<"textsig">>)
 TextLines == {Txt(1), Txt(2), Blank, SigLike}
 SignerSeqs == {<<>>, <<K1>>, <<K2>>, <<K1, K2>>, <<K2, K1>>, <<K1, K3>>, <<K3>>, <<K1, K2, K3>>}
 KnownSets == {[keys |-> ks, liar |-> FALSE] : ks \in SUBSET {K1, K2, K3, K4}} \cup {[keys |-> {K1, K2}, liar |-> TRUE]}
+             \cup {[keys |-> ks, liar |-> FALSE] : ks \in {{K1, K4, K5}, {K4, K5, K6}, {K1, K2, K4, K5}, {K1, K4, K5, K6}}}
 
 FirstSeqs == {<<K1>>, <<K2>>, <<K1, K2>>, <<K2, K1>>, <<K1, K3>>, <<K3, K1>>, <<K1, K2, K3>>, <<K3, K2, K1>>, <<K2, K3, K1>>}
 ResignKnown == {[keys |-> ks, liar |-> FALSE] : ks \in (SUBSET {K1, K2, K3}) \ {{}}}
